@@ -915,6 +915,7 @@ def mpc_si(z, prec, rnd=round_fast):
 # is very small
 
 def mpf_besseljn(n, x, prec, rounding=round_fast):
+    origprec = prec
     prec += 50
     negate = n < 0 and n & 1
     mag = x[2]+x[3]
@@ -935,7 +936,7 @@ def mpf_besseljn(n, x, prec, rounding=round_fast):
         k += 1
     if negate:
         s = -s
-    return from_man_exp(s, -wp, prec, rounding)
+    return from_man_exp(s, -wp, origprec, rounding)
 
 def mpc_besseljn(n, z, prec, rounding=round_fast):
     negate = n < 0 and n & 1
